@@ -531,6 +531,8 @@ func vcIsSymbolToken(x interface{}) bool { v, ok := x.(*SymbolToken); return ok 
 func vcIsType(x interface{}) bool        { _, ok := x.(Type); return ok }
 func vcIsSST(t SymbolTable) bool         { v, ok := t.(*sst); return ok && v != nil }
 func vcAsSST(t SymbolTable) *sst         { v, _ := t.(*sst); return v }
+func vcAsTextReader(r Reader) *textReader { v, _ := r.(*textReader); return v }
+func vcIsTextReader(r Reader) bool        { v, ok := r.(*textReader); return ok && v != nil }
 func vcIsBinaryReader(r Reader) bool     { v, ok := r.(*binaryReader); return ok && v != nil }
 func vcAsBinaryReader(r Reader) *binaryReader {
 	v, _ := r.(*binaryReader)
@@ -573,6 +575,40 @@ func tkStream(t *tokenizer) bool      { return t.in != nil && vcStreamWF(vcStrea
 func tkS(t *tokenizer) *vcStream      { return vcStreamOf(t.in) }
 func tkAvail(t *tokenizer) int        { return len(vcStreamOf(t.in).data) - vcStreamOf(t.in).cur }
 func tkByte(t *tokenizer, i int) byte { return vcStreamOf(t.in).data[vcStreamOf(t.in).cur+i] }
+
+// specCtxTop: the innermost context of a reader or writer (top level when the stack is empty).
+func specCtxTop(arr []ctx) ctx {
+	if len(arr) == 0 {
+		return ctxAtTopLevel
+	}
+	return arr[len(arr)-1]
+}
+
+// txInv: the text reader's representation invariant: the state is one of the five; the
+// "after value" state (a separator or closer is due) occurs only inside a list or struct,
+// the "before field name" state only inside a struct; an error means the reader is done;
+// a table is in force; the tokenizer's input is attached.
+func txInv(t *textReader) bool {
+	c := specCtxTop(t.ctx.arr)
+	return t.state <= trsAfterValue && c <= ctxInSexp &&
+		(t.state != trsAfterValue || c == ctxInList || c == ctxInStruct) &&
+		(t.state != trsBeforeFieldName || c == ctxInStruct) &&
+		(t.err == nil || t.state == trsDone) && t.lst != nil && tkStream(&t.tok) &&
+		(t.state != trsBeforeContainer || ((t.valueType == ListType || t.valueType == SexpType || t.valueType == StructType) && t.tok.unfinished))
+}
+
+// tkOpenUnfinished: after scanning the opening token of a container the tokenizer knows it
+// has an unfinished value (which Next skips or StepIn enters).
+func tkOpenUnfinished(t *tokenizer) bool {
+	return (t.token != tokenOpenBrace && t.token != tokenOpenBracket && t.token != tokenOpenParen) || t.unfinished
+}
+
+// txCtxOK: every context on the stack is a container context.
+func txCtxOK(t *textReader) bool {
+	return vcForallInt(func(i int) bool {
+		return !(0 <= i && i < len(t.ctx.arr)) || (ctxInStruct <= t.ctx.arr[i] && t.ctx.arr[i] <= ctxInSexp)
+	})
+}
 
 // ---------------------------------------------------------------------------
 // Symbol tables (Ion spec, "Symbols": system symbols 1-9, then each import's max_id slots
